@@ -95,3 +95,15 @@ Definition v_tab (t : htab) : V :=
 Definition exec_hash (prog : list instr) (ms : list (list Z)) (tabs : list htab) (stk : list Z) : V :=
   let '(s, tabs', st) := hrun (4 * length prog + 64) prog 0 (with_stack (init_state [] ms []) stk) tabs in
   VL [v_status st; VL (map VB (maps s)); VL (map v_tab tabs'); VB (skipn (512 - length stk) (stack s)); VZ (reg s 0)].
+
+(* ---- one step (for the multi-instance scheduler of C06 on hash-map variables) ---- *)
+Definition hstep (prog : list instr) (pc : nat) (s : mstate) (tabs : list htab) : mstate * list htab * status * nat :=
+  let served :=
+    match nth_error prog pc with
+    | Some i => if i_op i =? 133 then hash_call s tabs (i_imm i) else None
+    | None => None
+    end in
+  match served with
+  | Some (s', tabs', st) => (s', tabs', st, S pc)
+  | None => let '(s', st, pc') := step prog pc s in (s', tabs, st, pc')
+  end.
